@@ -278,6 +278,9 @@ func VPH_C06_step() {
 	for _, id := range t.ids {
 		vpAssert(got != id, "no-live-id-reissued")
 	}
+	// the table is again one from which the next step can be taken (in particular: no path-index
+	// entry survives its handle, which a later Allocate of that path would re-bind to another object)
+	t.invariant("ri")
 	if !usedFree {
 		vpReach("fresh-id")
 		vpAssert(got == t.next, "fresh-ids-are-sequential")
